@@ -16,7 +16,8 @@ def main():
     snap = "/tmp/verif_snap_%s" % seed
     subprocess.run(["rsync", "-a", "--delete", "--exclude", ".git", "--exclude", ".work", "--exclude", "replays", ROOT + "/", snap + "/"], check=True)
     os.makedirs(os.path.join(snap, ".work"), exist_ok=True)
-    ids = sorted(d for d in os.listdir(os.path.join(ROOT, "seeded")) if d.startswith(only) and os.path.exists(os.path.join(ROOT, "seeded", d, "patch.diff")))
+    ids = sorted(d for d in os.listdir(os.path.join(ROOT, "seeded")) if d.startswith(only) and os.path.exists(os.path.join(ROOT, "seeded", d, "patch.diff"))
+                 and not json.load(open(os.path.join(ROOT, "seeded", d, "meta.json"))).get("superseded"))
 
     def one(sid):
         pid = json.load(open(os.path.join(ROOT, "seeded", sid, "meta.json")))["property"]
